@@ -602,6 +602,7 @@ def make_nodemaker(seed_rng, store=None):
             return defer.succeed(n)
 
     nm = MemNodeMaker(None, Secrets(), None, MemUploader(), None, {"k": 3, "n": 10, "max_segment_size": 131072}, None, None)
+    nm._verif_store = store
     return nm, store
 
 
